@@ -79,6 +79,7 @@ func (s *SSTableManager) reflectCompactionResult(m *proto.CompactionMetadata) er
 		}
 
 		s.currentReader = sstables.NewSuperSSTableReader(s.allSSTableReaders, s.cmp)
+		verifPoint("compaction.reflected")
 
 		return nil
 	}()
